@@ -204,7 +204,7 @@ SPECS["C08"] = v2spec(
           "(2) EVERY pad width 0..2*1024+8 of leading spaces: Match(pad+bytes) == Match(bytes); (3) EVERY failure offset 0..len(input), error delivered alone and together with the last bytes: "
           "MatchFrom returns exactly the injected error, no matches, TotalInputLines 0, no panic. Larger inputs (<= 60 KB) and the scenario files get the readers and 200 sampled failure offsets. "
           "exhaustive=true refers to the pad-width and failure-offset sub-spaces of the selected inputs. Non-trivial = input with >= 1 match (readers/pads) or any failure block; distinct = distinct (input, block)."),
-    floor_evals={"quick": 500, "thorough": 4000},
+    floor_evals={"quick": 500, "thorough": 3000},
     floor_nontrivial={"quick": 300, "thorough": 2500},
     timeout={"quick": 1500, "thorough": 3 * 3600},
 )
